@@ -25,6 +25,9 @@ def units(tier):
         for b in A.KINDS:
             if a != b:
                 us.append(("switch", a, b))
+    for kind in A.KINDS:
+        for ai in (0, 1, 2):
+            us.append(("far", kind, ai))
     return us
 
 
@@ -182,6 +185,25 @@ def check_notations(ctx, kind, c, anchor, ddesc, n):
 
 
 def run_unit(unit, ctx):
+    if unit[0] == "far":
+        # intervals of a whole 400-year cycle of days and more (also as the derived n-1 multiple)
+        _, kind, ai = unit
+        impl.set_mode(A.MODE_OF[kind])
+        c = M.cal(kind)
+        anchor = recur.anchors(kind, "quick")[ai]
+        for d in ({"days": 146097}, {"days": 144000}, {"weeks": 20871}, {"days": 73050}, {"hours": 3506328}):
+            for n in (3, None):
+                for fmt in (3, 4, 1):
+                    desc = {"fmt": fmt, "n": n, "anchor": anchor, "dur": d, "via": "ctor"}
+                    ctx.state_count += 1
+                    saved = recur.CAP
+                    recur.CAP = 3
+                    try:
+                        check_rec(ctx, kind, c, desc)
+                    finally:
+                        recur.CAP = saved
+            check_notations(ctx, kind, c, anchor, d, 3)
+        return
     if unit[0] == "switch":
         # series that span several years, iterated in mode A, then B, then A again in one process
         for kx in (unit[1], unit[2], unit[1]):
